@@ -300,11 +300,15 @@ class SMUserList(UserList, ABC):
         where ``X`` is any of the SMTB classes.
         """
 
+        # the values are already held by an object of this class: they are
+        # handed on as they are, not validated (or normalised) a second time
+        x = self.__class__.Empty()
         if isinstance(i, slice):
             # same semantics as slicing a Python list
-            return self.__class__([self.data[k] for k in range(*i.indices(len(self)))])
+            x.data = [self.data[k] for k in range(*i.indices(len(self)))]
         else:
-            return self.__class__(self.data[i])
+            x.data = [self.data[i]]
+        return x
         
     def __setitem__(self, i, value):
         """
@@ -484,7 +488,9 @@ class SMUserList(UserList, ABC):
 
         where ``X`` is any of the SMTB classes.
         """
-        return self.__class__(super().pop(i))
+        x = self.__class__.Empty()
+        x.data = [super().pop(i)]
+        return x
 
     def binop(self, right, op, op2=None, list1=True):
         """
